@@ -883,7 +883,30 @@ def check_CONF(tier, seed):
                          "stage.entry order = entry point order", "types.visit count = TypeClosure.tla work", "hook work counters = model counters"]},
               open(os.path.join(EVIDENCE, "_conformance.json"), "w"), indent=1)
     log("[CONF] %d cases judged, %d drift" % (tr.judged, len(drift)))
-    return 2 if drift else 0
+    # the whole projected output against the functional model Output.tla
+    ocases = []
+    for i in range(300 if quick else 6000):
+        S, has_rt = F.role_shader(rng, entry_names=(i % 3 == 0))
+        if i % 2:
+            S["overrides"] = [{"name": "scale", "ty": "f32", "default": "1.0"}, {"name": "count", "ty": "u32", "id": 3}]
+        if i % 3 == 1:
+            S["consts"] = F.const_table(rng)[:12]
+        ov = F.all_opts()
+        o = dict(ov[i % len(ov)])
+        if has_rt:
+            o.update(enc=True, bmh=False, bmv=False)
+        ocases.append({"id": "out-%05d" % i, "family": "whole-output", "S": S, "opts": o})
+    ocases += cases_from_S(r3.cases[::(8 if quick else 1)], "orole", "whole-output-roles", vary_validate=False, o=F.opts(enc=True, mv="glam", bmv=True))
+    t2 = run_vdriver(ocases, "CONF_out", keep=["items", "structs", "groups", "fns"])
+    tr2 = validate_trace(t2, "OUT", chunk_lines=4000)
+    d2 = list(tr2.verdicts)
+    for v in d2[:20]:
+        print("DRIFT case=%s %s" % (v.get("id"), v.get("msg", "")[:700]))
+    ev = json.load(open(os.path.join(EVIDENCE, "_conformance.json")))
+    ev.update({"whole_output_cases": len(ocases), "whole_output_judged": tr2.judged, "whole_output_drift": len(d2)})
+    json.dump(ev, open(os.path.join(EVIDENCE, "_conformance.json"), "w"), indent=1)
+    log("[OUT] %d cases judged, %d drift" % (tr2.judged, len(d2)))
+    return 2 if (drift or d2) else 0
 
 
 # Does the specification of the stage walk memoise callees per entry point? (the code does since the C20 fix)
